@@ -361,13 +361,18 @@ func runC16(r *Run) {
 	for round := 0; round < rounds; round++ {
 		serveTCP16(r, 6+r.Rng.Intn(10))
 	}
+	// ---- ServeTCP with real read deadlines: frames in pieces, pauses beyond the idle timeout, queries in flight,
+	// messages whose tail is itself framed queries (c16stall.go)
+	serveTCPStalls16(r, r.N(8, 120))
 	// ---- the transports' own read loops under adversarial chunking of several frames
 	clientReadLoops16(r, r.N(40, 600))
 	// ---- frames written by retries of the non-pipelined transport
 	reuseRetryFrames16(r, r.N(25, 300))
+	// ---- the real DoQ server over quic-go on loopback
+	serveDoQ16(r, r.N(6, 60))
 	// ---- DoQ streams carry exactly one frame per direction (RFC 9250 4.2)
 	doqScenarios(r, "C16", r.N(40, 400))
-	r.Finish("boundary lengths {0..14,255..257,511,512,4095,4096,8188..8192,65533..65537,70000} + seeded lengths; every in-range write is read back under a seeded chunking (single chunk, 1-byte reads, split header, random, empty reads); read side: 40% valid frames, 20% announced<=12, 20% truncated, 20% random bytes, each under a chunking; packed messages around the 8191-byte scratch buffer; concurrent ServeTCP replies on a wrapped connection; non-trivial = not (valid frame in one chunk)")
+	r.Finish("boundary lengths {0..14,255..257,511,512,4095,4096,8188..8192,65533..65537,70000} + seeded lengths; every in-range write is read back under a seeded chunking (single chunk, 1-byte reads, split header, random, empty reads); read side: 40% valid frames, 20% announced<=12, 20% truncated, 20% random bytes, each under a chunking; packed messages around the 8191-byte scratch buffer; concurrent ServeTCP replies on a wrapped connection; ServeTCP over loopback TCP / net.Pipe with an 80-160 ms idle timeout fed frames cut inside the header / body / at embedded framed data, with pauses beyond the timeout while a query is in flight (only framed messages may reach the handler; also replayed on Model.C16.serve) and, with a 5 s timeout, without pauses (every frame handled and answered); non-trivial = not (valid frame in one chunk)")
 }
 
 // clientReadLoops16: the client side of stream framing inside the transports. N queries are in flight on one
